@@ -37,28 +37,40 @@ let oem = Name.oem_decode_lossy
 let name_of_hex (h : string) : BinNums.coq_N list = Str.utf8_decode (bytes_of_hex h)
 let opt_s = M_c02.opt_s
 
-(* whole-image comparison: every offset one of the maps holds, and the fill byte; [mask] = offset whose bit 0 is ignored *)
-let compare_images (mask : int) : string =
-  let bind im = Stdlib.List.map (fun (k, v) -> (int_of_pos k - 1, int_of_n v)) (FormatImage.img_bindings im) in
-  let mb = bind !mim and db = bind !dim in
-  let mfill = int_of_n (!mim).Image.img_fill and dfill = int_of_n (!dim).Image.img_fill in
-  let dt = Hashtbl.create (2 * Stdlib.List.length db + 16) in
-  Stdlib.List.iter (fun (k, v) -> Hashtbl.replace dt k v) db;
-  let bad = ref None in
-  let n = ref 0 in
-  let note k a b =
-    let a, b = if k = mask then (a lor 1, b lor 1) else (a, b) in
-    if a <> b then (match !bad with Some (o, _, _) when o <= k -> () | _ -> bad := Some (k, a, b)) in
-  Stdlib.List.iter (fun (k, a) ->
-      incr n;
-      (match Hashtbl.find_opt dt k with
-       | Some b -> note k a b; Hashtbl.remove dt k
-       | None -> note k a dfill)) mb;
-  Hashtbl.iter (fun k b -> incr n; note k mfill b) dt;
-  if mfill <> dfill then "DIFF fill byte"
+(* whole-image comparison by a simultaneous walk of the two tries (every offset
+   either map holds, a missing binding reads as the fill byte; [mask] = offset whose bit 0 is ignored).  The key
+   of a node reached by [depth] branchings with branch bits [path] (least significant first) is path + 2^depth; offset = key - 1 *)
+let compare_two (a : Image.image) (b : Image.image) (mask : int) : string =
+  let afill = int_of_n a.Image.img_fill and bfill = int_of_n b.Image.img_fill in
+  let bad = ref None and n = ref 0 in
+  let note off x y =
+    incr n;
+    let x, y = if off = mask then (x lor 1, y lor 1) else (x, y) in
+    if x <> y then (match !bad with Some (o, _, _) when o <= off -> () | _ -> bad := Some (off, x, y)) in
+  let rec go ta tb path depth =
+    match ta, tb with
+    | FMapPositive.PositiveMap.Leaf, FMapPositive.PositiveMap.Leaf -> ()
+    | _ ->
+      let (la, va, ra) = match ta with
+        | FMapPositive.PositiveMap.Leaf -> (FMapPositive.PositiveMap.Leaf, None, FMapPositive.PositiveMap.Leaf)
+        | FMapPositive.PositiveMap.Node (l, v, r) -> (l, v, r) in
+      let (lb, vb, rb) = match tb with
+        | FMapPositive.PositiveMap.Leaf -> (FMapPositive.PositiveMap.Leaf, None, FMapPositive.PositiveMap.Leaf)
+        | FMapPositive.PositiveMap.Node (l, v, r) -> (l, v, r) in
+      (match va, vb with
+       | None, None -> ()
+       | _ ->
+         let off = path + (1 lsl depth) - 1 in
+         note off (match va with Some x -> int_of_n x | None -> afill) (match vb with Some y -> int_of_n y | None -> bfill));
+      go la lb path (depth + 1);
+      go ra rb (path + (1 lsl depth)) (depth + 1) in
+  go a.Image.img_map b.Image.img_map 0 0;
+  if afill <> bfill then "DIFF fill byte"
   else match !bad with
-    | Some (o, a, b) -> Printf.sprintf "DIFF at %d: model %d device %d" o a b
+    | Some (o, x, y) -> Printf.sprintf "DIFF at %d: model %d device %d" o x y
     | None -> Printf.sprintf "same %d" !n
+
+let compare_images (mask : int) : string = compare_two !mim !dim mask
 
 let apply_writes (wr : string list) : unit =
   Stdlib.List.iter (fun s ->
